@@ -1,6 +1,6 @@
 (* C38 — Branch permissions follow the rule table's documented matching.  Property theorems only. *)
 From Coq Require Import NArith ZArith List Bool Permutation.
-From Dolt Require Import Base.Str C38.Model C38.Spec C38.Corr C38.Proofs.
+From Dolt Require Import Base.Str C38.Model C38.Spec C38.Corr C38.Proofs C38.ProofsTrie C38.ProofsMore.
 Import ListNotations.
 Local Open Scope Z_scope.
 
@@ -43,3 +43,78 @@ Theorem C38_access_request_parsed_refuted :
   exists t r q, norm_rule t r = r /\ spec_access t [r] q = (true, 14%N) /\ access_match t [r] q = (false, 0%N).
 Proof. exact access_request_parsed_refuted. Qed.
 Print Assumptions C38_access_request_parsed_refuted.
+
+(* ---- the MatchNode trie ---- *)
+Theorem C38_trie_add_is_map_update :
+  forall n toks dat t', tlookup (add_node n toks dat) t' = if list_eq_dec Z.eq_dec t' toks then Some dat else tlookup n t'.
+Proof. exact add_node_lookup. Qed.
+Print Assumptions C38_trie_add_is_map_update.
+
+Theorem C38_trie_remove_is_map_delete :
+  forall n, wf n -> forall toks, rem_ok n toks.
+Proof. exact rem_node_ok. Qed.
+Print Assumptions C38_trie_remove_is_map_delete.
+
+Theorem C38_trie_denotes_history :
+  forall ops tr, wf tr ->
+    wf (tr_apply ops tr) /\ forall t', tlookup (tr_apply ops tr) t' = hist_from ops (tlookup tr t') t'.
+Proof. exact trie_denotes_history. Qed.
+Print Assumptions C38_trie_denotes_history.
+
+Theorem C38_trie_order_independent :
+  forall ops1 ops2, (forall t', hist_from ops1 None t' = hist_from ops2 None t') ->
+    forall t', tlookup (tr_apply ops1 root0) t' = tlookup (tr_apply ops2 root0) t'.
+Proof. exact trie_order_independent. Qed.
+Print Assumptions C38_trie_order_independent.
+
+Theorem C38_trie_eq_rules_partial :
+  forall ops inp p L,
+    (In (p, L) (trie_match (tr_apply ops root0) inp) ->
+     exists toks, hist_from ops None toks = Some p /\ In L (tresults (trun [(toks, 0%N)] inp)))
+    /\ (forall toks, hist_from ops None toks = Some p -> In ([], L) (trun [(toks, 0%N)] inp) ->
+        In (p, L) (trie_match (tr_apply ops root0) inp)).
+Proof. exact trie_eq_rules_partial. Qed.
+Print Assumptions C38_trie_eq_rules_partial.
+
+Theorem C38_trie_trailing_any_refuted :
+  exists ops inp toks p L,
+    hist_from ops None toks = Some p /\ In L (tresults (trun [(toks, 0%N)] inp))
+    /\ ~ In (p, L) (trie_match (tr_apply ops root0) inp).
+Proof. exact trie_trailing_any_refuted. Qed.
+Print Assumptions C38_trie_trailing_any_refuted.
+
+Theorem C38_trie_decision_eq_rules_partial :
+  forall t ops q (rs : list (list Z * N)),
+    (forall toks p, In (toks, p) rs <-> hist_from ops None toks = Some p) ->
+    (forall toks p n, In (toks, p) rs -> ~ In ([t_any], n) (trun [(toks, 0%N)] (req_toks t q))) ->
+    trie_access_match t (tr_apply ops root0) q = decision (flat_results rs (req_toks t q)).
+Proof. exact trie_decision_eq_rules_partial. Qed.
+Print Assumptions C38_trie_decision_eq_rules_partial.
+
+Theorem C38_trie_decision_order_independent_partial :
+  forall t ops1 ops2 q (rs : list (list Z * N)),
+    (forall toks p, In (toks, p) rs <-> hist_from ops1 None toks = Some p) ->
+    (forall toks, hist_from ops1 None toks = hist_from ops2 None toks) ->
+    (forall toks p n, In (toks, p) rs -> ~ In ([t_any], n) (trun [(toks, 0%N)] (req_toks t q))) ->
+    trie_access_match t (tr_apply ops1 root0) q = trie_access_match t (tr_apply ops2 root0) q.
+Proof. exact trie_decision_order_independent_partial. Qed.
+Print Assumptions C38_trie_decision_order_independent_partial.
+
+(* ---- folding normal form, namespace ---- *)
+Theorem C38_fold_fixpoint_normal :
+  forall so, (forall c, 0 <= so c) -> forall s, fold_pass FN s = s -> normal (parse so false s) = true.
+Proof. exact fold_fixpoint_normal. Qed.
+Print Assumptions C38_fold_fixpoint_normal.
+
+Theorem C38_fold_normal_partial :
+  forall so, (forall c, 0 <= so c) -> forall p, fold_pass FN (fold p) = fold p -> normal (parse so false (fold p)) = true.
+Proof. exact fold_normal_partial. Qed.
+Print Assumptions C38_fold_normal_partial.
+
+Theorem C38_namespace_spec :
+  forall t, (forall c, 0 <= so_ci t c) -> (forall c, 0 <= so_bin t c) ->
+  forall rules q, Forall (rule_normal t) rules ->
+    q_d q <> [] -> q_b q <> [] -> q_u q <> [] -> q_h q <> [] ->
+    can_create t rules q = spec_can_create t rules q.
+Proof. exact namespace_spec. Qed.
+Print Assumptions C38_namespace_spec.
